@@ -29,6 +29,13 @@ def run(out, rng, tier, args):
     for cid in range(n):
         fc = cc.gen_file_case(cid, rng)
         o = cc.random_options(rng)
+        # options left off the command line mean the documented defaults (-m external -d dcfr -t 1000 -r 0 -c 0 -p 0);
+        # the default budget is only taken where the comparison with the library stays exact (one thread) or is not made
+        flags = ["-m", "-d", "-r", "-c"] + (["-t"] if o["method"] != "full" or o["par"] == 1 else []) + (["-p"] if o["T"] <= 100 else [])
+        cc.omit_some(rng, o, rate=0.15, flags=flags)
+        if o["method"] == "full" and o["T"] >= 1000 and o["par"] != 1:
+            o["omit"].discard("-p")
+            o["par"] = 1
         fc.opts = o
         fc.route = rng.choice(["file", "stdin"])
         fc.fmt_opt = rng.choice(["auto", "explicit"])
@@ -52,6 +59,8 @@ def run(out, rng, tier, args):
                   "stdout": res["stdout"][:4000], "outfile": (res["outfile"] or "")[:4000]}
         out.count("format_" + fc.fmt)
         out.count("method_" + o["method"])
+        for fl in sorted(o.get("omit", ())):
+            out.count("option_omitted_" + fl)
         out.count("route_" + fc.route)
         if res["exit"] != 0:
             out.monitor_hits.append((fc.cid, "the binary exited with %r on a valid %s file: %s" % (res["exit"], fc.fmt, res["stderr"][-300:]),
